@@ -261,6 +261,42 @@ inductive Stmt where
   | error (e : Expr)
 deriving Inhabited
 
+mutual
+/-- Does a `@content` occur lexically in the statement (the parser's `has_content` flag)? -/
+def stmtHasContent : Stmt → Bool
+  | .content _ => true
+  | .rule _ body => blockHasContent body
+  | .ifs cl els => clausesHaveContent cl || (match els with
+      | some b => blockHasContent b
+      | none => false)
+  | .forr _ _ _ _ body => blockHasContent body
+  | .each _ _ body => blockHasContent body
+  | .whil _ body => blockHasContent body
+  | .incl _ _ content => (match content with
+      | some (_, body) => blockHasContent body
+      | none => false)
+  | _ => false
+def blockHasContent : List Stmt → Bool
+  | [] => false
+  | s :: ss => stmtHasContent s || blockHasContent ss
+def clausesHaveContent : List (Expr × List Stmt) → Bool
+  | [] => false
+  | (_, b) :: r => blockHasContent b || clausesHaveContent r
+end
+
+mutual
+/-- An empty argument list nested inside a list: grass does not treat it as blank
+    (value/arglist.rs:54), the Sass rules do; outside the model. -/
+def Value.nestedEmptyArglist : Value → Bool
+  | .list es _ _ => anyEmptyArglist es
+  | .arglist es _ => anyEmptyArglist es
+  | _ => false
+def anyEmptyArglist : List Value → Bool
+  | [] => false
+  | .arglist [] _ :: _ => true
+  | v :: vs => v.nestedEmptyArglist || anyEmptyArglist vs
+end
+
 /-! ### state, errors, the evaluation monad -/
 
 structure Callable where
@@ -752,6 +788,7 @@ def stmtF (r : Rec) (ctx : Ctx) : Stmt → M (Option Value)
   | .decl prop e => do
     if ctx.sel.isEmpty then fail .declOutsideRule else
     let v ← r.expr ctx e
+    if v.nestedEmptyArglist then fail .unsupported else
     let emptyList := match v with | .list [] _ false => true | .map [] => true | .arglist [] _ => true | _ => false
     let droppedAsFound := match v with | .list [] _ false => ctx.dev.emptyListDeclDropped | _ => false
     if v.isBlank && !emptyList then pure none else
@@ -822,6 +859,9 @@ def stmtF (r : Rec) (ctx : Ctx) : Stmt → M (Option Value)
     match lookupMixin st.heap ctx.env name with
     | none => fail .undefinedMixin
     | some c =>
+      -- a content block may only be passed to a mixin that uses `@content` (checked before the
+      -- arguments are evaluated)
+      if content.isSome && !blockHasContent c.body then fail .noContentAccepted else
       let ev ← evalArgs r ctx args
       let cb := content.map fun (ps, body) => Content.mk ps body ctx.env ctx.content
       invoke r ctx.dev (fun fid => { dev := ctx.dev, env := fid :: c.env, semi := false, content := cb, sel := ctx.sel, inFn := false })
